@@ -3122,6 +3122,9 @@ class TypeBlocks(ContainerOperand):
             return False
         if compare_dtype and self._dtypes != other._dtypes: # these are lists
             return False
+        if self._shape[1] == 0:
+            # same shape and no columns: nothing to compare (and no blocks to apply operators to)
+            return True
 
         # NOTE: TypeBlocks handles array operations that return Boolean
         try:
